@@ -104,7 +104,10 @@ impl Registry {
                 return Some(name.to_owned());
             }
         }
-        None
+        // A long prefix (`kilo-`) is a unit without a definition. It
+        // has to stop here like `lookup` does, instead of being read
+        // as some other prefix or as a plural.
+        Some(name.to_owned())
     }
 
     fn canonicalize_with_prefix(&self, name: &str) -> Option<String> {
